@@ -881,6 +881,104 @@ def check_C12(tier, seed):
                    "per-type files = emitted .c/.h files that are not copies of skeleton files"])
 
 
+# ---- unber / enber (C20) ----------------------------------------------------------------------------
+def check_C20(tier, seed):
+    import subprocess, tempfile, shutil, re
+    from concurrent.futures import ThreadPoolExecutor
+    t0 = time.time()
+    res = Result("C20")
+    known = lib.load_findings("C20")
+    consts = ["Rich = %s" % ("TRUE" if tier == "thorough" else "FALSE")]
+    _, scns, st = lib.generate("MC_Tlv", consts, ["FieldsSound", "Export"], workers=4)
+    res.states += st["distinct"]
+    res.transitions += st["states"]
+    seen, uniq = set(), []
+    for s in scns:
+        key = (s["mode"], bytes(s["bytes"]))
+        if key not in seen:
+            seen.add(key)
+            uniq.append(s)
+    scns = uniq
+    if tier == "quick":
+        rt = [s for s in scns if s["mode"] == "roundtrip"]
+        mu = [s for s in scns if s["mode"] == "mutate"]
+        scns = rt + mu[::max(1, len(mu) // 6000)]
+    for i, s in enumerate(scns):
+        s["id"] = i + 1
+    tools = lib.build_tools("asan")
+    work = tempfile.mkdtemp(prefix="c20-", dir=lib.SCRATCH)
+    env = dict(os.environ, ASAN_OPTIONS="detect_leaks=0:abort_on_error=1", UBSAN_OPTIONS="halt_on_error=1:abort_on_error=1")
+    tagre = re.compile(r'^\s*<([PCI]) O="(\d+)" T="\[(?:(UNIVERSAL|APPLICATION|PRIVATE) )?(\d+)\]" TL="(\d+)" V="(\d+|Indefinite)"')
+
+    def one(s):
+        p = os.path.join(work, "x%d.ber" % s["id"])
+        open(p, "wb").write(bytes(s["bytes"]))
+        try:
+            r = subprocess.run([tools["unber"], "-p", p], stdout=subprocess.PIPE, stderr=subprocess.PIPE, timeout=20, env=env)
+            urc, uout, uerr = r.returncode, r.stdout, r.stderr
+        except subprocess.TimeoutExpired:
+            urc, uout, uerr = -14, b"", b"timeout"
+        ev = {"id": s["id"], "a": "Tools", "unber_exit": urc if urc >= 0 else 0, "unber_signal": -urc if urc < 0 else 0,
+              "unber_diag": bool(uerr.strip()), "detail": uerr.decode(errors="replace")[-300:]}
+        if s["mode"] == "roundtrip":
+            fields = []
+            for line in uout.decode(errors="replace").splitlines():
+                mm = tagre.match(line)
+                if mm:
+                    cl = {"UNIVERSAL": "U", "APPLICATION": "A", "PRIVATE": "P", None: "C"}[mm.group(3)]
+                    fields.append({"o": int(mm.group(2)), "cl": cl, "num": int(mm.group(4)), "form": mm.group(1), "tl": int(mm.group(5)),
+                                   "v": -1 if mm.group(6) == "Indefinite" else int(mm.group(6))})
+            ev["fields"] = fields
+            try:
+                r2 = subprocess.run([tools["enber"], "-"], input=uout, stdout=subprocess.PIPE, stderr=subprocess.PIPE, timeout=20, env=env)
+                erc, eout = r2.returncode, r2.stdout
+                ev["enber_detail"] = r2.stderr.decode(errors="replace")[-200:]
+            except subprocess.TimeoutExpired:
+                erc, eout = -14, b""
+            ev.update({"enber_exit": erc if erc >= 0 else 0, "enber_signal": -erc if erc < 0 else 0, "enber_bytes": list(eout)})
+        os.unlink(p)
+        return ev
+    try:
+        with ThreadPoolExecutor(lib.NCPU) as ex:
+            evs = list(ex.map(one, scns))
+    finally:
+        shutil.rmtree(work, ignore_errors=True)
+    mism, tot = lib.judge("MC_Tlv", None, scns, evs, constants=consts, shards=8)
+    mism = expand(mism)
+    res.states += tot["distinct"]
+    res.transitions += tot["states"]
+    res.sessions += len(scns)
+    res.events += len(evs)
+    byid = {s["id"]: s for s in scns}
+    evid = {e["id"]: e for e in evs}
+    for s in scns:
+        res.distinct.add((s["mode"], bytes(s["bytes"])))
+    rt0 = next(s for s in scns if s["mode"] == "roundtrip" and len(s["bytes"]) > 8)
+    res.samples.append({"bytes": bytes(rt0["bytes"]).hex(), "fields": rt0["fields"], "event": evid[rt0["id"]]})
+    for m in mism:
+        s = byid[m["id"]]
+        def min_tl(f):
+            ident = 1 if f["num"] < 31 else 1 + max(1, (f["num"].bit_length() + 6) // 7)
+            ln = 1 if f["v"] < 128 else 1 + (f["v"].bit_length() + 7) // 8
+            return ident + ln
+        padded = s["mode"] == "roundtrip" and any(f["v"] >= 0 and f["tl"] > min_tl(f) for f in s["fields"])
+        sig = {"op": "tools", "mode": s["mode"], "reason": m["reason"], "style": "padded-length" if padded else "minimal-lengths"}
+        f = None
+        for kf in known:
+            for alt in (kf["match"] if isinstance(kf["match"], list) else [kf["match"]]):
+                if alt.get("op") == "tools" and lib.finding_matches({"match": {k: v for k, v in alt.items() if k != "pred"}}, sig):
+                    f = kf
+        if f:
+            res.known[f["id"]] = res.known.get(f["id"], 0) + 1
+        else:
+            res.violations.append((sig, {"property": "C20", "signature": sig, "bytes": bytes(s["bytes"]).hex(), "scenario": s, "event": evid[m["id"]]}))
+    res.notes["round_trips"] = len([s for s in scns if s["mode"] == "roundtrip"])
+    res.notes["mutants"] = len([s for s in scns if s["mode"] == "mutate"])
+    return finish(res, tier, seed, "model_checking", t0,
+                  "TLV forests enumerated by TLC (depth <= 3, up to 2 children / 2 top-level nodes, all four tag classes, tag numbers 0 2 4 16 17 30 31 127 128 300 16383 16384, contents of 0 / 1 / 2 / 127 / 128 octets, minimal / padded long-form / indefinite lengths): unber -p on Ser(forest) must print exactly Fields(forest) and enber must reproduce the octets; truncations and byte substitutions of every forest's octets (quick: a sample of 6000): unber must end by exit, with a diagnostic when it fails; both tools are built with ASan+UBSan from the working tree",
+                  ["MC_Tlv.tla (X.690 8.1 identifier / length octets) is the reference", "TLC, Json module, python glue (parsing of the unber -p text)"])
+
+
 # ---- compiler pipeline (C10) ------------------------------------------------------------------
 C10_OPTIONS = ["-fcompound-names", "-fwide-types", "-findirect-choice", "-fno-constraints", "-no-gen-PER", "-no-gen-OER", "-fincludes-quoted"]
 
@@ -995,7 +1093,7 @@ def check_C10(tier, seed):
 
 
 CHECKS = {"C01": check_C01, "C02": check_C02, "C03": check_C03, "C04": check_C04, "C05": check_C05, "C06": check_C06, "C07": check_C07, "C08": check_C08, "C14": check_C14,
-          "C09": check_C09, "C10": check_C10, "C11": check_C11, "C12": check_C12, "C13": check_C13, "C16": check_C16, "C17": check_C17}
+          "C09": check_C09, "C10": check_C10, "C11": check_C11, "C12": check_C12, "C13": check_C13, "C16": check_C16, "C17": check_C17, "C20": check_C20}
 
 
 def replay(prop, path):
